@@ -604,10 +604,40 @@ def r33(body):
     return body, count
 
 
+@rule("R35", "E.and_then(|p| B) -> match E { Ok(p) => B, Err(vx_e) => Err(vx_e) }   [Result::and_then is `match self { Ok(t) => op(t), Err(e) => Err(e) }`; the closure is inlined; free rule; side conditions: B without `return`/`?`/`break`/`continue`, single identifier parameter. On an Option receiver the result does not type-check: undecided, never an alarm]")
+def r35(body):
+    def build(e, a, p, b):
+        return "match %s { Ok(%s) => %s, Err(vx_e) => Err(vx_e) }" % (e, p, b)
+    count, pos = 0, 0
+    pat = re.compile(r"((?:self\s*\.\s*)?\w+(?:\s*\.\s*\w+)*?\s*(?:\([^()]*\))?)\s*\.\s*and_then\s*\(")
+    while True:
+        m = pat.search(body, pos)
+        if not m:
+            break
+        close = _match_paren(body, m.end() - 1)
+        if close < 0:
+            break
+        arg = body[m.end():close]
+        cm = re.match(r"^\s*\|\s*(\w+)\s*\|\s*(.+?)\s*$", arg, re.S)
+        im = re.match(r"^\s*(\w+)\s*$", arg)
+        if im:
+            new = build(" ".join(m.group(1).split()), None, "vx_t", "%s(vx_t)" % im.group(1))
+        elif not cm or re.search(r"\breturn\b|\?|\bbreak\b|\bcontinue\b", cm.group(2)):
+            pos = m.end()
+            continue
+        else:
+            new = build(" ".join(m.group(1).split()), None, cm.group(1), cm.group(2).strip())
+        old = body[m.start():close + 1]
+        body = body[:m.start()] + _pad(old, new) + body[close + 1:]
+        pos = m.start() + len(new)
+        count += 1
+    return body, count
+
+
 # rules that are purely syntactic proof devices are applied only when a unit asks for them
 OPT_IN = {"R9", "R9b", "R15", "R17", "R21", "R22", "R24", "R25", "R25b", "R26", "R28", "R30", "R31", "R32", "R33"}
 # std-definition rules that may fire in any extracted function without being declared by the unit (they are logged)
-FREE = {"R27", "R29"}
+FREE = {"R27", "R29", "R35"}
 
 
 @rule("R3b", "assert!(E, \"msg\") -> proved assertion on the executable operand   [strengthening: the runtime check must never fire]")
